@@ -44,6 +44,57 @@ CLAIMED["C17"] = dict(
     design="§4 C17",
 )
 
+CLAIMED["C06"] = dict(
+    text="Lean 4 theorems C06_used, C06_missing_partial, C06_unused_partial, C06_bad_partial, C06_deprecated_partial, "
+         "C06_without_extension_partial (+ C06_spdx_name_without_extension, C06_compound, C06_consistency_partial, C06_case_sensitive, "
+         "table obligation C06_table): for every licence table, every list of covered files with any number of expressions and every "
+         "list of LICENSES/ entries, each field of the model of Project._find_licenses + FileReport/ProjectReport.generate contains "
+         "exactly the pairs / identifiers its set-algebra definition in the property text names ('+' tolerance on use, sub-directories, "
+         ".license companions skipped, case-sensitive equality, every key of a compound expression counted). Tied to the code by real "
+         "`reuse lint --json` runs on generated trees covering the class x use x provision product and defect-injected trees, model fed "
+         "from the generator's records, judged by an independent Python statement of the definitions; the whole bundled SPDX list is a "
+         "generated table (round-tripped through the driver).",
+    note="Partial: LICENSES/ entries named by a listed identifier X.Y whose stem X is itself an identifier (OLDAP-2.0.1, OLDAP-2.2.1, "
+         "OLDAP-2.2.2, Python-2.0.1) and the `LicenseRef-.ext` shape are excluded by the decidable hypothesis plainNames; the first is a "
+         "known finding (read as X with extension .Y). `generate = some r` = no two entries with one identifier (the tool stops; C16). "
+         "Readings chosen: a deprecated identifier is reported as deprecated when it is provided (used-but-unprovided ones are missing); "
+         "the '+' tolerance applies to uses, not to file names (LICENSES/MIT+.txt is bad); an extension-less LicenseRef- is outside C06's "
+         "text (C01 (c) covers it). The model is the code after three repairs (fixes/licenseref-*.diff). Trusted: Lean kernel, "
+         "gen_tables.py, harness; license-expression, tag extraction, REUSE.toml/dep5 and the file walk are exercised end to end, not modelled.",
+    technique="Lean 4 proof (loop invariant of _find_licenses, membership characterisation of every report field) + generated SPDX table + model/implementation differential on generated trees",
+    design="§4 C06",
+)
+
+CLAIMED["C01"] = dict(
+    text="Lean 4 theorems C01_verdict_partial (isCompliant of the generated report <-> clauses (a)-(d) as quantified statements over "
+         "the abstract project, any number of files / expressions / LICENSES entries), C01_exit, C01_eight (compliant <-> all eight "
+         "collections empty), C01_violation_exits_1_partial, C01_no_copyright / C01_no_licence / C01_read_errors and C01_clauses_partial "
+         "(per-clause correspondence); the licence categories are exact by the C06 theorems on the same model. Tied to the code by real "
+         "`reuse lint --json` + exit status on compliant-by-construction trees with 0-5 injected defects of 14 kinds and on the C06 cells.",
+    note="Partial: same plainNames hypothesis and duplicate-identifier exclusion as C06 (known finding for OLDAP-2.0.1-like names). "
+         "Clause (b) is read with the '+' tolerance of C06; clause (c) 'with a file extension' includes extension-less LicenseRef- entries "
+         "(repaired: fixes/licenseref-without-extension.diff). Read errors are provoked with FIFOs (root sandbox). Extraction, precedence "
+         "and the covered-file walk (C02-C04) are exercised end to end by the trees, not modelled here. Trusted: Lean kernel, gen_tables.py, harness.",
+    technique="Lean 4 proof (verdict <-> specification clauses over a model of report aggregation) + by-construction trees with injected defects",
+    design="§4 C01",
+)
+
+CLAIMED["C13"] = dict(
+    text="Lean 4 theorems C13_exit (the four invocations share the verdict's exit status), C13_json / C13_plain / C13_lines (each format's "
+         "(category, item) entries are exactly the report's collections, in its documented rendering), C13_formats_agree, "
+         "C13_compliant_silent, C13_counters (files_total, files_with_copyright_info, files_with_licensing_info, compliant = sizes / "
+         "emptiness of the JSON's own lists), C13_lint_file (lint-file's entries = lint's per-file entries restricted to the files among "
+         "F, only the four per-file kinds, exit 1 iff any) and C13_lint_file_only_covered (names that are not covered files and "
+         "repetitions contribute nothing) - for every report. Tied to the code by parsing the real outputs of `reuse lint "
+         "--json/--plain/--lines/--quiet` and `reuse lint-file` (relative / absolute / ./ paths, other working directory with --root, "
+         "directories, non-covered files) on generated trees.",
+    note="Formatters are modelled up to wording, order and layout (the harness parsers recover the entries); translations are not "
+         "exercised. Symlinks named in F are not explored (the tool resolves them to their target). The model is the code after "
+         "fixes/lint-file-subset-special-files.diff (FIFO read errors leaked into lint-file). Trusted: Lean kernel, harness parsers, click's path handling.",
+    technique="Lean 4 proof (formatters as functions of one report; restriction theorem for lint-file) + parsed-output differential",
+    design="§4 C13",
+)
+
 NOT_YET = {}
 
 
